@@ -577,6 +577,8 @@ struct Worker {
     done: bool,
     summary: bool,
     subfile: Option<String>,
+    last_cpu: f64,
+    last_cpu_change: Instant,
 }
 
 pub struct RunResult {
@@ -618,7 +620,7 @@ pub fn run_cases(def: &CheckDef, tier: Tier, seed: u64, nworkers: u64, end: Opti
     for i in 0..nworkers {
         let mut child = spawn_worker(def, tier, seed, i, nworkers, 0, end);
         attach(&mut child, workers.len(), tx.clone());
-        workers.push(Worker { child, shard: i, current: None, cpu_at_marker: 0.0, wall_at_marker: Instant::now(), done: false, summary: false, subfile: None });
+        workers.push(Worker { child, shard: i, current: None, cpu_at_marker: 0.0, wall_at_marker: Instant::now(), done: false, summary: false, subfile: None, last_cpu: 0.0, last_cpu_change: Instant::now() });
     }
     let mut res = RunResult {
         violations: vec![],
@@ -645,6 +647,8 @@ pub fn run_cases(def: &CheckDef, tier: Tier, seed: u64, nworkers: u64, end: Opti
                     w.current = n.parse().ok();
                     w.cpu_at_marker = proc_cpu_seconds(w.child.id()).unwrap_or(0.0);
                     w.wall_at_marker = Instant::now();
+                    w.last_cpu = w.cpu_at_marker;
+                    w.last_cpu_change = Instant::now();
                 } else if let Some(j) = l.strip_prefix("V ") {
                     if let Ok(v) = serde_json::from_str::<Value>(j) {
                         let vi = &v["violation"];
@@ -709,7 +713,7 @@ pub fn run_cases(def: &CheckDef, tier: Tier, seed: u64, nworkers: u64, end: Opti
                         let mut child = spawn_worker(def, tier, seed, shard, nworkers, idx + 1, end);
                         let slot2 = workers.len();
                         attach(&mut child, slot2, tx.clone());
-                        workers.push(Worker { child, shard, current: None, cpu_at_marker: 0.0, wall_at_marker: Instant::now(), done: false, summary: false, subfile: None });
+                        workers.push(Worker { child, shard, current: None, cpu_at_marker: 0.0, wall_at_marker: Instant::now(), done: false, summary: false, subfile: None, last_cpu: 0.0, last_cpu_change: Instant::now() });
                         live += 1;
                     }
                 }
@@ -724,7 +728,14 @@ pub fn run_cases(def: &CheckDef, tier: Tier, seed: u64, nworkers: u64, end: Opti
                 continue;
             }
             let cpu = proc_cpu_seconds(w.child.id()).unwrap_or(0.0);
-            let stalled = cpu - w.cpu_at_marker >= def.cpu_limit_s as f64 || w.wall_at_marker.elapsed() > Duration::from_secs(300.max(def.cpu_limit_s * 4));
+            if cpu > w.last_cpu + 0.02 {
+                w.last_cpu = cpu;
+                w.last_cpu_change = Instant::now();
+            }
+            // a worker is always CPU-bound: no CPU progress for 40 s of wall time inside a case
+            // means it is blocked (e.g. a self-deadlock on the library's lock)
+            let blocked = w.last_cpu_change.elapsed() > Duration::from_secs(40) && w.wall_at_marker.elapsed() > Duration::from_secs(40);
+            let stalled = blocked || cpu - w.cpu_at_marker >= def.cpu_limit_s as f64 || w.wall_at_marker.elapsed() > Duration::from_secs(300.max(def.cpu_limit_s * 4));
             if stalled {
                 let idx = w.current.unwrap();
                 let _ = w.child.kill();
@@ -750,7 +761,7 @@ pub fn run_cases(def: &CheckDef, tier: Tier, seed: u64, nworkers: u64, end: Opti
                     let mut child = spawn_worker(def, tier, seed, shard, nworkers, idx + 1, end);
                     let slot2 = workers.len();
                     attach(&mut child, slot2, tx.clone());
-                    workers.push(Worker { child, shard, current: None, cpu_at_marker: 0.0, wall_at_marker: Instant::now(), done: false, summary: false, subfile: None });
+                    workers.push(Worker { child, shard, current: None, cpu_at_marker: 0.0, wall_at_marker: Instant::now(), done: false, summary: false, subfile: None, last_cpu: 0.0, last_cpu_change: Instant::now() });
                     live += 1;
                 }
             }
